@@ -232,6 +232,24 @@ def check_case(case, acc):
     # (iterators, search, Walker, Resolver and RenderTree are code shared by both mixins and only read the attributes that
     # the lighter observation compares directly; enumerated single calls ask the full set in every fourth case)
     obs_a = observe_both(rec_a, uni_a, rec_b, uni_b, bool(case.get("full_queries", True)), "after the history")
+    # a generator handed out by the library and consumed in portions while the tree changes: both mixins follow the links alike
+    walks = []
+    for rec, uni in ((rec_a, uni_a), (rec_b, uni_b)):
+        mut.CURRENT[0] = rec
+        rec.begin_call(None)
+        deepest = max(range(len(uni)), key=lambda i: (len(uni[i].path), -i))
+        seq = []
+        it = uni[deepest].iter_path_reverse()
+        for node in it:
+            seq.append(rec.labels.label(node))
+            if len(seq) == 1:
+                try:
+                    node.parent = None if len(uni) < 2 or node.parent is None else [u for u in uni if u is not node and node not in u.path][-1]
+                except Exception as exc:  # noqa: BLE001
+                    seq.append(type(exc).__name__)
+        walks.append(seq)
+    if walks[0] != walks[1]:
+        raise Violation("query:iter_path_reverse", "iter_path_reverse() consumed step by step while the node just handed out is moved: NodeMixin %s, LightNodeMixin %s" % (walks[0], walks[1]))
     if len(case["steps"]) == 1:
         acc.nontrivial(changes > 0 or (refused > 0 and bool(results[0][2])))
     else:
